@@ -491,7 +491,8 @@ ERROR_REPLAYS = {"cv2.uncorrelated": (replay_cv2_uncorrelated, {}), "cv2.": (rep
 
 
 def main(tier):
-    bounds = {"paths": "N <= 3 (quick) / 4 (thorough)", "payoff": "forward, call with scalar strike, call with a vector of 2 strikes; notional, discount factor, strikes arbitrary reals",
+    bounds = {"histories_and_variants": 'one ControlVariates object used for two pricings (spot product with 2 concrete paths, then log-spot product with N = 2 symbolic paths)',
+              "paths": "N <= 3 (quick) / 4 (thorough)", "payoff": "forward, call with scalar strike, call with a vector of 2 strikes; notional, discount factor, strikes arbitrary reals",
               "controls": "one control (forward on the spot, arbitrary notional, strike and price): direct identities N = 2 (quick) / 2, 3 (thorough), compositional N <= 3 / 5; two controls (forward and call with a notional, "
                           "plain-float prices, 2x2 inverse), N = 3 (quick) / 3, 4 (thorough)",
               "repeated pricing": "the same engine and Product priced twice, N <= 2/3",
